@@ -582,14 +582,28 @@ func (c *Check) paramSetExact(rule string) {
 				c.ok(rule, unitConstruct(f, "parameter-set"), pa.RetPos, "the whole parameter set is read by Subspace.GetParamSet")
 				continue
 			}
-			if r.Op != "lit" {
+			have := map[string]*Term{}
+			if r.Op == "with" && (baseOf(r).IsAt("zero") || baseOf(r).Op == "lit") {
+				// a zero value filled field by field (a typed reader writing through pointers to the fields)
+				for k, v := range writtenFields(r) {
+					have[k] = v
+				}
+				if b := baseOf(r); b.Op == "lit" {
+					for _, kv := range b.A[1:] {
+						if _, dup := have[kv.Op]; !dup && len(kv.A) == 1 {
+							have[kv.Op] = kv.A[0]
+						}
+					}
+				}
+			} else if r.Op != "lit" {
 				c.undecided(rule, unitConstruct(f, "parameter-set"), pa.RetPos, "the assembled parameter set is not a Params value built field by field: "+shortTerm(r))
 				continue
 			}
-			have := map[string]*Term{}
-			for _, kv := range r.A[1:] {
-				if len(kv.A) == 1 {
-					have[kv.Op] = kv.A[0]
+			if r.Op == "lit" {
+				for _, kv := range r.A[1:] {
+					if len(kv.A) == 1 {
+						have[kv.Op] = kv.A[0]
+					}
 				}
 			}
 			for i := 0; i < st.NumFields(); i++ {
